@@ -145,6 +145,15 @@ func fForm(i, n int) (string, *openfgav1.Userset, []*openfgav1.RelationReference
 		text := "(" + a1.text + fOpNames[op1] + a2.text + ")" + fOpNames[op] + "(" + b1.text + fOpNames[op2] + b2.text + ")"
 		return text, fOp(op, fOp(op1, a1.u, a2.u), fOp(op2, b1.u, b2.u)), a1.restr
 	}
+	if zzverif.Param(fmt.Sprintf("NEST%d", i), 0) == 2 {
+		// (A1 op1 A2) op B1: one nested group, small menus (used for several relations at once)
+		first := []fLeaf{leaves[0], leaves[16]}
+		rest := []fLeaf{leaves[16], leaves[17]}
+		op, op1 := zzverif.Choose(tag+".op", 3), zzverif.Choose(tag+".op1", 3)
+		a1, a2, b1 := first[zzverif.Choose(tag+".a1", 2)], rest[zzverif.Choose(tag+".a2", 2)], rest[zzverif.Choose(tag+".b1", 2)]
+		text := "(" + a1.text + fOpNames[op1] + a2.text + ")" + fOpNames[op] + b1.text
+		return text, fOp(op, fOp(op1, a1.u, a2.u), b1.u), a1.restr
+	}
 	c := zzverif.Choose(tag, forms)
 	if c < len(menu) {
 		l := menu[c]
